@@ -116,6 +116,30 @@ func checkC02(c *Ctx, w *World) {
 		c.check(n == 1 && good, "C02.callers", fname(h.f)+": delta", p.pos(h.f.Pos()), fmt.Sprintf("one atomic add of %+d on the receiver's own counter", h.d), "helper does not add exactly the expected delta to its receiver's counter")
 	}
 
+	// ---- C02.atomic: "placed on a channel whose number of active streams is minimal": selection (the scan of the counts)
+	// and the increment of the selected slot are one exclusive critical section of the picker — two picks through the same
+	// picker must not both see the counts before either has added its own
+	{
+		gsr := pl.f("(*gcpPicker).getSubConnRef")
+		var sel []*ssa.Call
+		if gsr != nil {
+			sel = pl.callsIn(gai, gsr)
+		}
+		nAt := 0
+		for _, sc := range sel {
+			for _, s := range incSites {
+				ic, isC := s.Instr.(*ssa.Call)
+				if !isC || s.Fn != gai || !mayPrecede(sc, ic) {
+					continue
+				}
+				nAt++
+				excl := pl.lf.HeldAt(sc)["gcpPicker.mu"] == 2 && pl.lf.HeldAt(ic)["gcpPicker.mu"] == 2 && sameHoldOf(pl.lf, "gcpPicker.mu", sc, ic)
+				c.check(excl, "C02.atomic", "selection and increment in one exclusive picker critical section", p.ipos(ic), "getSubConnRef(…) and the increment of the slot it returned run under gcpPicker.mu held exclusively, with no release in between", "the least-loaded selection and the increment of the chosen slot are not one exclusive critical section of the picker (shared lock, or the lock is released in between): concurrent picks through one picker all see the same counts and pile onto one channel")
+			}
+		}
+		c.floor("C02.atomic", nAt, 1)
+	}
+
 	// ---- C02.place
 	var incCalls []*ssa.Call
 	for _, s := range incSites {
